@@ -102,7 +102,7 @@ func (n *Natives) PkgFiles(pkg string) []*NativeFile {
 type JSRef struct {
 	Method string // Get, Call, Set, ...
 	Name   string
-	NArgs  int // arguments after the name
+	NArgs  int  // arguments after the name
 	Global bool // receiver chain is exactly js.Global
 	Pos    token.Pos
 	Call   *ast.CallExpr
